@@ -27,13 +27,15 @@ CLAIMED = {
             "document of rows of scalars is read back as written (reader state machine, all byte strings); TSV: every field comes back "
             "byte for byte and is a string on the documented domain; no raw separator in a written field; CBOR (Fmts/Cbor.v: writer, reader and the "
             "header layer of ciborium-ll): reading what the writer wrote yields the value, whatever follows, for every value of null, booleans, "
-            "machine and big integers of any size, byte strings, valid UTF-8 text, arrays and objects with any such keys, and sequences of "
-            "values come back as sequences (Proofs/CborLaws.v). Correspondence: tocbor byte for byte (shortest float widths included) and "
+            "machine and big integers of any size, floats (every binary64 pattern, written in the shortest of binary16/32/64 that holds it "
+            "exactly and read back bit for bit: Proofs/CborFloat.v, for zeros, sub-normal and normal numbers, infinities and quiet NaNs), byte "
+            "strings, valid UTF-8 text, arrays and objects with any such keys; sequences of values come back as sequences; a decimal literal "
+            "comes back as the float it denotes (Proofs/CborLaws.v). Correspondence: tocbor byte for byte (shortest float widths included) and "
             "fromcbor on RFC 8949 appendix A, generated and mutated documents (indefinite lengths, all widths, tags, breaks), toyaml (flow and "
             "block style with all indentation options through --to yaml), fromyaml on plain scalars, tocsv/totsv/fromcsv/fromtsv on raw "
             "text. Oracles: round trips of YAML/CBOR/TOML/CSV/TSV/XML on generated domains with reserved words and indicators, values just "
             "outside the domains, Python tomllib/csv/minidom as independent readers, --to/--from with every output option. Partial: "
-            "TOML, XML and document-level YAML by oracle (third-party tokenizers), floats in CBOR by correspondence, floats in CSV come back as decimal literals.",
+            "TOML, XML and document-level YAML by oracle (third-party tokenizers), invalid UTF-8 in CBOR by correspondence, floats in CSV come back as decimal literals.",
             "7.14", "Coq proof (YAML scalars, CSV/TSV reader and writer, CBOR writer and reader) + model/implementation correspondence + round trips and independent readers"),
     "C16": ("Theorems about the loader model (Cli/Modules.v): every file is loaded at most once whatever the routes; the open stack is "
             "restored; dependencies are loaded before their dependents; every reached file is loaded; a cycle of any length among the "
